@@ -9,6 +9,7 @@ import (
 	"go/constant"
 	"go/token"
 	"go/types"
+	"regexp"
 	"sort"
 	"strings"
 
@@ -164,7 +165,16 @@ func (c *Ctx) excludedAtCallSites(pk *packages.Package, fd *ast.FuncDecl, sw *as
 	if idx < 0 {
 		return false
 	}
-	target := pk.TypesInfo.Defs[fd.Name]
+	return c.forEveryCallSite(pk.TypesInfo.Defs[fd.Name], func(rp *packages.Package, cfd *ast.FuncDecl, call *ast.CallExpr, env *provEnv) bool {
+		if idx >= len(call.Args) {
+			return false
+		}
+		return c.argExcluded(rp, cfd, call, env, env.prov(call.Args[idx]), constName, 0)
+	})
+}
+
+// forEveryCallSite: f holds at every call of target in the module (and there is at least one).
+func (c *Ctx) forEveryCallSite(target types.Object, f func(rp *packages.Package, cfd *ast.FuncDecl, call *ast.CallExpr, env *provEnv) bool) bool {
 	sites := 0
 	for _, rp := range c.P.Roots {
 		for _, cfd := range allFuncDecls(rp) {
@@ -173,27 +183,57 @@ func (c *Ctx) excludedAtCallSites(pk *packages.Package, fd *ast.FuncDecl, sw *as
 			}
 			var env *provEnv
 			for _, call := range callsInDeep(cfd.Body) {
-				if calleeOf(rp.TypesInfo, call) != target || idx >= len(call.Args) {
+				if calleeOf(rp.TypesInfo, call) != target {
 					continue
 				}
 				sites++
 				if env == nil {
 					env = newProvEnv(rp, cfd)
 				}
-				want := "(" + env.prov(call.Args[idx]) + " != " + constName + ")"
-				found := false
-				for _, a := range env.enclosingConds(cfd.Body, call) {
-					if a == want {
-						found = true
-					}
-				}
-				if !found {
+				if !f(rp, cfd, call, env) {
 					return false
 				}
 			}
 		}
 	}
 	return sites > 0
+}
+
+// argExcluded: the value described by argProv (in cfd's terms) is known to differ from the constant
+// at the node: a governing condition says so there, or — when the value comes from a parameter of a
+// plain helper — at every call site of that helper (two levels).
+func (c *Ctx) argExcluded(rp *packages.Package, cfd *ast.FuncDecl, at ast.Node, env *provEnv, argProv, constName string, depth int) bool {
+	want := "(" + argProv + " != " + constName + ")"
+	for _, a := range env.enclosingConds(cfd.Body, at) {
+		if a == want {
+			return true
+		}
+	}
+	if depth >= 2 || !strings.Contains(argProv, "param:") {
+		return false
+	}
+	fn, ok := rp.TypesInfo.Defs[cfd.Name].(*types.Func)
+	if !ok {
+		return false
+	}
+	sig := fn.Type().(*types.Signature)
+	return c.forEveryCallSite(fn, func(rp2 *packages.Package, cfd2 *ast.FuncDecl, call2 *ast.CallExpr, env2 *provEnv) bool {
+		sub := argProv
+		for i := 0; i < sig.Params().Len() && i < len(call2.Args); i++ {
+			pn := sig.Params().At(i).Name()
+			if pn == "" || pn == "_" {
+				continue
+			}
+			re := regexp.MustCompile(`param:` + regexp.QuoteMeta(pn) + `\b`)
+			if re.MatchString(sub) {
+				sub = re.ReplaceAllLiteralString(sub, env2.prov(call2.Args[i]))
+			}
+		}
+		if sub == argProv {
+			return false
+		}
+		return c.argExcluded(rp2, cfd2, call2, env2, sub, constName, depth+1)
+	})
 }
 
 // ---- front-end model ----
@@ -256,6 +296,7 @@ func frontEndRequests(p *Program, proto, pkgPath string) []*feRequest {
 			}
 			// the payload: a literal, or a variable assigned literals in branches, or a helper result
 			var lits []*ast.CompositeLit
+			litSub := map[*ast.CompositeLit]map[types.Object]string{}
 			helper := ""
 			var collect func(e ast.Expr, depth int)
 			collect = func(e ast.Expr, depth int) {
@@ -266,6 +307,12 @@ func frontEndRequests(p *Program, proto, pkgPath string) []*feRequest {
 				switch x := e.(type) {
 				case *ast.CompositeLit:
 					lits = append(lits, x)
+				case *ast.CallExpr:
+					// a helper of the front end that builds the request from what was bound
+					if hl := helperLiteral(pk, x); hl != nil {
+						lits = append(lits, hl)
+						litSub[hl] = helperArgTexts(pk, x, nil)
+					}
 				case *ast.Ident:
 					if depth > 3 {
 						return
@@ -293,8 +340,9 @@ func frontEndRequests(p *Program, proto, pkgPath string) []*feRequest {
 			}
 			for _, l := range lits {
 				r := &feRequest{Proto: proto, Handler: funcName(fd), Kind: kind, Lit: l, Pos: l.Pos(), Pk: pk, Decl: fd, Process: call, Fields: map[string]string{}}
-				var fill func(cl *ast.CompositeLit, prefix string)
-				fill = func(cl *ast.CompositeLit, prefix string) {
+				var fillS func(cl *ast.CompositeLit, prefix string, sub map[types.Object]string)
+				fill := func(cl *ast.CompositeLit, prefix string) { fillS(cl, prefix, nil) }
+				fillS = func(cl *ast.CompositeLit, prefix string, sub map[types.Object]string) {
 					for _, el := range cl.Elts {
 						kv, ok := el.(*ast.KeyValueExpr)
 						if !ok {
@@ -305,19 +353,118 @@ func frontEndRequests(p *Program, proto, pkgPath string) []*feRequest {
 							v = ast.Unparen(u.X)
 						}
 						if inner, ok := v.(*ast.CompositeLit); ok && namedPkgPath(info.Types[inner].Type) == pkgTApi {
-							fill(inner, prefix+exprString(kv.Key)+".")
+							fillS(inner, prefix+exprString(kv.Key)+".", sub)
 							continue
 						}
-						r.Fields[prefix+exprString(kv.Key)] = exprString(kv.Value)
+						if hc, ok := v.(*ast.CallExpr); ok {
+							if hl := helperLiteral(pk, hc); hl != nil && namedPkgPath(info.Types[hl].Type) == pkgTApi {
+								fillS(hl, prefix+exprString(kv.Key)+".", helperArgTexts(pk, hc, sub))
+								continue
+							}
+						}
+						r.Fields[prefix+exprString(kv.Key)] = exprStringSubst(info, kv.Value, sub)
 					}
 				}
-				fill(l, "")
+				if sub, ok := litSub[l]; ok {
+					fillS(l, "", sub)
+				} else {
+					fill(l, "")
+				}
 				out = append(out, r)
 			}
 		}
 	}
 	sort.Slice(out, func(i, j int) bool { return out[i].Pos < out[j].Pos })
 	return out
+}
+
+// helperArgTexts: for a call of a same-package helper, its parameters ↦ the source text of the
+// arguments (a leading & dropped: selectors dereference implicitly), themselves substituted by outer.
+func helperArgTexts(pk *packages.Package, call *ast.CallExpr, outer map[types.Object]string) map[types.Object]string {
+	info := pk.TypesInfo
+	fn, ok := calleeOf(info, call).(*types.Func)
+	if !ok {
+		return nil
+	}
+	sig := fn.Type().(*types.Signature)
+	out := map[types.Object]string{}
+	for i := 0; i < sig.Params().Len() && i < len(call.Args); i++ {
+		a := ast.Unparen(call.Args[i])
+		if u, ok := a.(*ast.UnaryExpr); ok && u.Op == token.AND {
+			a = ast.Unparen(u.X)
+		}
+		out[sig.Params().At(i)] = exprStringSubst(info, a, outer)
+	}
+	return out
+}
+
+// exprStringSubst prints an expression with the identifiers in sub replaced by their texts.
+func exprStringSubst(info *types.Info, e ast.Expr, sub map[types.Object]string) string {
+	if len(sub) == 0 {
+		return exprString(e)
+	}
+	switch x := e.(type) {
+	case *ast.Ident:
+		if t, ok := sub[info.Uses[x]]; ok {
+			return t
+		}
+	case *ast.ParenExpr:
+		return "(" + exprStringSubst(info, x.X, sub) + ")"
+	case *ast.SelectorExpr:
+		return exprStringSubst(info, x.X, sub) + "." + x.Sel.Name
+	case *ast.StarExpr:
+		return "*" + exprStringSubst(info, x.X, sub)
+	case *ast.UnaryExpr:
+		return x.Op.String() + exprStringSubst(info, x.X, sub)
+	case *ast.IndexExpr:
+		return exprStringSubst(info, x.X, sub) + "[" + exprStringSubst(info, x.Index, sub) + "]"
+	case *ast.CallExpr:
+		var as []string
+		for _, a := range x.Args {
+			as = append(as, exprStringSubst(info, a, sub))
+		}
+		return exprStringSubst(info, x.Fun, sub) + "(" + strings.Join(as, ", ") + ")"
+	case *ast.BinaryExpr:
+		return exprStringSubst(info, x.X, sub) + " " + x.Op.String() + " " + exprStringSubst(info, x.Y, sub)
+	}
+	return exprString(e)
+}
+
+// helperLiteral: the composite literal a same-package function returns on its value-carrying return
+// (a function whose returns are that one literal, possibly with `nil` / error exits besides).
+func helperLiteral(pk *packages.Package, call *ast.CallExpr) *ast.CompositeLit {
+	fn, ok := calleeOf(pk.TypesInfo, call).(*types.Func)
+	if !ok || fn.Pkg() != pk.Types {
+		return nil
+	}
+	fd := funcDeclOf(pk, fn)
+	if fd == nil || fd.Body == nil {
+		return nil
+	}
+	var lit *ast.CompositeLit
+	n := 0
+	ast.Inspect(fd.Body, func(x ast.Node) bool {
+		if _, isFn := x.(*ast.FuncLit); isFn {
+			return false
+		}
+		rs, ok := x.(*ast.ReturnStmt)
+		if !ok || len(rs.Results) == 0 {
+			return true
+		}
+		v := ast.Unparen(rs.Results[0])
+		if u, ok := v.(*ast.UnaryExpr); ok && u.Op == token.AND {
+			v = ast.Unparen(u.X)
+		}
+		if cl, ok := v.(*ast.CompositeLit); ok {
+			lit = cl
+			n++
+		}
+		return true
+	})
+	if n != 1 {
+		return nil
+	}
+	return lit
 }
 
 // ruleFrontEndSiblings (R13): per request kind both front ends submit requests and populate the
@@ -890,6 +1037,12 @@ func ruleUnionLiterals(c *Ctx) {
 					return true
 				}
 				tv, ok := info.Types[cl]
+				if ok && cl.Type == nil {
+					// an element of []*T{{…}}: the literal's type is written *T
+					if p, isPtr := tv.Type.(*types.Pointer); isPtr {
+						tv.Type = p.Elem()
+					}
+				}
 				if !ok || !unions[namedPkgPath(tv.Type)][namedName(tv.Type)] {
 					return true
 				}
